@@ -233,6 +233,14 @@ def has_kind(e, kinds):
     return any(has_kind(e.get(x), kinds) for x in ('l', 'r', 'e')) or any(has_kind(x, kinds) for x in e.get('args', []))
 
 
+def mentions(e, c):
+    if not isinstance(e, dict):
+        return False
+    if e.get('k') == 'var':
+        return e['c'] == c
+    return any(mentions(e.get(x), c) for x in ('l', 'r', 'e')) or any(mentions(x, c) for x in e.get('args', []))
+
+
 def classify(e, clause):
     """Extra key fields so that open known findings can be matched specifically."""
     ex = e.get('e')
@@ -465,7 +473,9 @@ class Gen(object):
             c = rng.choice(cs)
             ln = len(self.val(c))
             e = self.expr(rng.choice([0, 1, 2]))
-            if e == var(c):
+            if e['k'] in ('var', 'fn') and mentions(e, c):
+                # MID$(v$)=v$ with the very same string as source and target is the GW-BASIC overlap quirk (C09);
+                # an identity DEF FN returns the same pointer: force a copy
                 e = cat(e, lit(b''))
             return {'op': 'midset', 'c': c, 's': rng.randint(0, ln + 1) if rng.random() < 0.3 else rng.randint(1, max(1, ln)),
                     'n': rng.choice([255, 255, 0, 1, 2, 3, ln, ln + 1]), 'e': e}
